@@ -32,7 +32,10 @@ RULE = ('(a) correspondence: generated well-nested histories (with-blocks, excep
         'out of corpus programs by get_slice()/copy(). On each: sequences (k<=10) of invalid requests of 22 kinds mixed with '
         'valid edits through replace/put/put_slice/insert/append/prepend/extend/prextend/remove/attribute and item '
         'assignment/deletion, slice requests to the virtual fields (_all/_args/_bases/_body/_attrs), deletes of every field, '
-        'requests on the root itself, raw puts and put_src(action=reparse) with text that breaks the source; plus systematic '
+        'requests on the root itself, raw puts and put_src(action=reparse) with text that breaks the source, raw puts of '
+        'acceptable code that changes the kind of an ancestor (comment-terminated literals etc.), and VALID requests (code of '
+        'the right category to every node/field, every operator of its category on operator chains of 2-7 values = multi-site '
+        'edits): whatever raises is judged, valid request or not; plus systematic '
         'families on the small trees (delete every node and field; every position x every rule-breaking code of every slice '
         'field; every option x junk values (out-of-range ints, wrong types) x every entry-point family - insert/append/prepend/'
         'extend/put/put_slice/delete/get_slice(cut)/replace/remove/cut - on every statement list). Every call that RAISES is judged: src, ast.dump(with positions) of the whole root and the AST<->FST node '
